@@ -7,9 +7,9 @@ CONSTANTS
   Limit = 3
   Window = 4
   MaxRound = 3
-  MaxSnaps = 8
+  MaxSnaps = 7
   MaxEarly = 1
-  Late = {}
+  Late = {3}
   MaxPub = 1
   MaxAhead = 1
   Interleave = FALSE
